@@ -160,6 +160,31 @@ def stage_b(ctx, front, cfgp, label, max_len=30, max_paths=None, devs=(), vmap=N
     return len(recs)
 
 
+def stage_b_sim(ctx, front, cfgp, label, num, depth, devs=(), vmap=None, report_devs=True):
+    """Behaviours sampled by `tlc -simulate` from a configuration too large for a transition cover (3 entries,
+    all dimensions open) are executed as schedules and judged like every other execution."""
+    behs, viol, out = tlc.simulate('NdnPitMC', cfgp, num=num, depth=depth, seed=ctx.seed % 100000, workers=1, tag='pitsim')
+    recs = []
+    seen = set()
+    for b in behs:
+        path = [(a, tlaval.parse_args(p), None) for (a, p, s) in b if a and a != 'Init']
+        sched = events_of_path(path, vmap)
+        key = json.dumps(sched, sort_keys=True)
+        if not sched or key in seen:
+            continue
+        seen.add(key)
+        recs.append(record(front, sched))
+        k = nontrivial_key(sched)
+        if k:
+            ctx.nt('S' + front + k)
+    ctx.note('B-sim %s %s: %d simulated behaviours, %d distinct schedules executed' % (front, label, len(behs), len(recs)))
+    ctx.traces += len(recs)
+    ctx.evaluations += len(recs)
+    judge.judge(ctx, 'NdnPitTrace', lambda dev: trace_cfg(front, dev), recs, front, 'pitS-%s-%s' % (ctx.prop, front), devs=devs,
+                report_devs=report_devs)
+    return len(recs)
+
+
 # ---------------------------------------------------------------- random schedules (stage C)
 
 NAMES = [['a'], ['a', 'b'], ['a', 'b', 'c'], ['a', 'c'], ['b'], ['a', 'b', 'd']]
